@@ -54,6 +54,11 @@ func (e *Engine) modelCall(st *State, fn *ssa.Function, args []Val, site ssa.Ins
 	if e.rangeModel(st, fn, args, site, k) {
 		return true
 	}
+	if strings.Contains(fn.String(), "skipmap.") || strings.Contains(fn.String(), "skipset.") {
+		if e.collectionModel(st, fn, args, site, k) {
+			return true
+		}
+	}
 	switch {
 	case strings.HasPrefix(full, "(*sync/atomic."):
 		i := strings.Index(full, ").")
